@@ -879,31 +879,46 @@ def bp_wrap(lib, fn, key, pwd, salt, it):
     return 0, lib.rd(out, n)
 
 
-def bp_unwrap(lib, fn, epki, pwd, klen_hint=None):
-    """probe the key length with a null output, then exact; returns (code, key, untouched?)"""
+def bp_unwrap(lib, fn, epki, pwd):
+    """probe the key length with a null output, then exact; returns (code, key)"""
     f = getattr(lib, fn)
     pe, pp = lib.mk(epki), lib.mk(pwd)
     pn = lib.alloc(8)
     code = f(0, pn, pe, len(epki), pp, len(pwd))
     if code != 0:
-        # the second call of a careless caller: a buffer of the expected size must stay untouched
-        if klen_hint:
-            out = lib.alloc(klen_hint)
-            before = lib.rd(out, klen_hint)
-            code2 = f(out, lib.alloc(8), pe, len(epki), pp, len(pwd))
-            return code if code2 != 0 else 0, lib.rd(out, klen_hint), lib.rd(out, klen_hint) == before
-        return code, None, True
+        return code, None
     n = lib.rd_size(pn)
     if n > 1024:
-        return -2, None, True
+        return -2, None
     out = lib.alloc(n)
     pn2 = lib.alloc(8)
     code = f(out, pn2, pe, len(epki), pp, len(pwd))
     if code != 0:
-        return code, None, True
+        return code, None
     if lib.rd_size(pn2) != n:
-        return -1, None, True
-    return 0, lib.rd(out, n), False
+        return -1, None
+    return 0, lib.rd(out, n)
+
+
+def bp_unwrap_direct(lib, fn, epki, pwd, klen):
+    """a caller that knows the key length: one call into an exact buffer; returns (code, buffer, untouched?)"""
+    f = getattr(lib, fn)
+    out = lib.alloc(klen)
+    before = lib.rd(out, klen)
+    code = f(out, lib.alloc(8), lib.mk(epki), len(epki), lib.mk(pwd), len(pwd))
+    after = lib.rd(out, klen)
+    return code, after, after == before
+
+
+FLIP_PARTS = 4
+
+
+def hmac_equiv(a, b):
+    """PBKDF2 uses the password as an HMAC[belt-hash] key: keys up to the block length (32 octets) are padded with
+    zeros, so passwords that differ only in trailing zero octets are the same key"""
+    if len(a) <= 32 and len(b) <= 32:
+        return a.rstrip(b"\0") == b.rstrip(b"\0")
+    return a == b
 
 
 def unit_bpki(ctx):
@@ -923,8 +938,9 @@ def unit_bpki(ctx):
             scen.append(("rt", fnb, klen, pl, iters[(i + klen) % len(iters)] if not (not q and i == 40 and klen == 32) else 70000,
                          ("zero", "ff", "rand")[(i + klen) % 3]))
     # (b) every octet altered
-    for fnb, klen in kinds:
-        scen.append(("flip", fnb, klen, 6, iters[klen % 3], "rand"))
+    for part in range(FLIP_PARTS):
+        for fnb, klen in kinds:
+            scen.append(("flip%d" % part, fnb, klen, 6, iters[klen % 3], "rand"))
     # (c) documented argument errors
     for fnb, klen in kinds[:2] + kinds[4:5]:
         scen.append(("args", fnb, klen, 4, 10000, "rand"))
@@ -932,15 +948,23 @@ def unit_bpki(ctx):
         st = max(1, int(round(1 / scale)))
         scen = [s for i, s in enumerate(scen) if s[0] != "rt" or i % st == 0]
     for n, (op, fnb, klen, pl, it, saltk) in enumerate(scen):
-        key = bytes(r.randrange(256) for _ in range(klen))
+        part = None
+        if op.startswith("flip"):
+            part, op = int(op[4:]), "flip"
+            # all parts of one container share its content
+            r2 = random.Random("c17bpki/%d/%s/%d" % (ctx.seed, fnb, klen))
+        else:
+            r2 = r
+        key = bytes(r2.randrange(256) for _ in range(klen))
         if fnb == "bpkiShare":
-            key = bytes([1 + r.randrange(16)]) + key[1:]
-        pwd = bytes(r.randrange(256) for _ in range(pl))
-        salt = {"zero": bytes(8), "ff": b"\xff" * 8, "rand": bytes(r.randrange(256) for _ in range(8))}[saltk]
-        seed = r.getrandbits(40)
+            key = bytes([1 + r2.randrange(16)]) + key[1:]
+        pwd = bytes(r2.randrange(256) for _ in range(pl))
+        salt = {"zero": bytes(8), "ff": b"\xff" * 8, "rand": bytes(r2.randrange(256) for _ in range(8))}[saltk]
+        seed = r2.getrandbits(40)
         if n % of != chunk:
             continue
-        desc = {"op": "bpki-" + op, "fn": fnb, "klen": klen, "key": key, "pwd": pwd, "salt": salt, "iter": it, "seed": seed, "bits": bits}
+        desc = {"op": "bpki-" + op, "fn": fnb, "klen": klen, "key": key, "pwd": pwd, "salt": salt, "iter": it, "seed": seed,
+                "bits": bits, "part": part}
         if not ctx.case(desc, "bpki:%s:%s:%d" % (op, fnb[4:], klen)):
             continue
         rr = random.Random(seed)
@@ -978,18 +1002,18 @@ def unit_bpki(ctx):
             lib.release()
             continue
         det["epki"] = epki
-        cu, got, _ = bp_unwrap(lib, U, epki, pwd)
+        cu, got = bp_unwrap(lib, U, epki, pwd)
         n_eval += 2
         if cu != 0 or got != key:
             ctx.violation("%s:roundtrip-differs:klen=%d" % (U, klen), "%s, got %r" % (errname(cu), got), det)
         dg = [epki, cu]
         if op == "rt":
-            wrongs = {"bit": bytes([pwd[0] ^ 1]) + pwd[1:] if pwd else b"\x00", "trunc": pwd[:-1] if pwd else b"\x01",
-                      "ext": pwd + b"\x00", "empty": b"" if pwd else b"\xff"}
+            wrongs = {"bit": bytes([pwd[0] ^ 1]) + pwd[1:] if pwd else b"\x01", "trunc": pwd[:-1] if pwd else b"\x02",
+                      "ext": pwd + b"\x01", "ext0": pwd + b"\x00", "empty": b"" if pwd else b"\xff"}
             for lab, wp in wrongs.items():
-                if wp == pwd:
-                    continue
-                c, out, untouched = bp_unwrap(lib, U, epki, wp, klen)
+                if hmac_equiv(wp, pwd):
+                    continue        # the same HMAC key: not a different password
+                c, out, untouched = bp_unwrap_direct(lib, U, epki, wp, klen)
                 n_eval += 1
                 dg.append(c != 0)
                 if c == 0 or out == key or (out is not None and key[1:] in out):
@@ -999,7 +1023,7 @@ def unit_bpki(ctx):
                     ctx.violation("%s:wrong-password-output-written:%s" % (U, lab), "output buffer modified although an error is returned",
                                   dict(det, wrong_pwd=wp, out=out))
             # wrong container type
-            c, out, _ = bp_unwrap(lib, other, epki, pwd, klen)
+            c, out, _ = bp_unwrap_direct(lib, other, epki, pwd, klen)
             n_eval += 1
             dg.append(c != 0)
             if c == 0:
@@ -1007,9 +1031,11 @@ def unit_bpki(ctx):
         else:
             for j in range(len(epki)):
                 for b in rr.sample(range(8), bits):
+                    if j % FLIP_PARTS != part:
+                        continue
                     alt = bytearray(epki)
                     alt[j] ^= 1 << b
-                    c, out, _ = bp_unwrap(lib, U, bytes(alt), pwd)
+                    c, out, _ = bp_unwrap_direct(lib, U, bytes(alt), pwd, klen)
                     n_eval += 1
                     dg.append(c != 0)
                     if c == 0:
@@ -1040,7 +1066,7 @@ def jobs(tier, scale=1.0):
     nchain = max(1, int(round((1 if q else 6) * scale)))
     add("unit_cvc_chain", 16, chains=nchain, bits=1 if q else 3)
     add("unit_sm", 8 if q else 16)
-    add("unit_bpki", 12, bits=1 if q else 3)
+    add("unit_bpki", 16, bits=1 if q else 3)
     return out
 
 
